@@ -31,6 +31,10 @@ def gen_world(rng, profile=None):
     # a run that starts at time 0 exactly (SimTime(0) is falsy: enqueue / dispatch / departure times of 0).  Own stream.
     if random.Random(f'time-zero|{t0}|{delta}').random() < 0.08:
         t0 = 0
+    # a run whose first steps straddle UTC midnight (queues, waits and shifts that span the date change).  Own stream.
+    rm = random.Random(f'straddle-midnight|{t0}|{delta}')
+    if rm.random() < profile.get('midnight_p', 0.0):
+        t0 = 86400 * rm.randint(1, 2) - rm.randint(1, 3) * delta - rm.choice([0, 0, 1, delta // 2])
     n_clusters = rng.randint(2, 4)
     per_cluster = rng.randint(1, 3)
     if profile.get('clusters'):
@@ -38,8 +42,9 @@ def gen_world(rng, profile=None):
     geoids = make_geoids(rng, n_clusters, per_cluster)
     fleets = rng.choice([[], [], ['fa'], ['fa', 'fb']]) if 'fleets' not in profile else profile['fleets']
     cancel = rng.choice([60, 300, 600])
+    search_res = random.Random(f'search-res|{t0}|{delta}|{cancel}').choice([10, 10, 10, 8, 9, 11, 12])
     cfg = base_config()
-    cfg = cfg._replace(sim=cfg.sim._replace(request_cancel_time_seconds=cancel, timestep_duration_seconds=delta),
+    cfg = cfg._replace(sim=cfg.sim._replace(request_cancel_time_seconds=cancel, timestep_duration_seconds=delta, sim_h3_search_resolution=search_res),
                        dispatcher=cfg.dispatcher._replace(max_search_radius_km=1.0))   # 100 km default => k_ring(760) ring searches when no valid station exists
     sched_defs = {'s1': rng.choice([(8 * 3600, 17 * 3600), (22 * 3600, 6 * 3600), (0, 0), (3600, 3600 + 2 * delta)])}
     # shifts touching step boundaries: a shift (often wrapping past midnight) whose END is the start time of one of the first
@@ -177,7 +182,10 @@ def gen_world(rng, profile=None):
                             state = DispatchBase.build(v.id, ent.id, tuple(links))
                 links = tuple(links)
                 vehicles[idx] = v.modify_vehicle_state(state or Repositioning.build(v.id, links))
-    sim = ml.mock_sim(sim_time=t0, sim_timestep_duration_seconds=delta, vehicles=tuple(vehicles), stations=tuple(stations), bases=tuple(bases))
+    # the resolution of the coarse search index differs from world to world (the worlds of one run share positions and one
+    # process: anything remembered about a position across simulations must not depend on the resolution).  Own stream.
+    sim = ml.mock_sim(sim_time=t0, sim_timestep_duration_seconds=delta, vehicles=tuple(vehicles), stations=tuple(stations), bases=tuple(bases),
+                      h3_search_res=search_res)
     ids = ([v.id for v in vehicles] + [f's{k}' for k in range(10)] + [f'b{k}' for k in range(4)] + REQ_IDS + CHARGER_IDS
            + FLEETS + ['bev', 'ice', 's1', 'v9', 'v5', 'v6', 'b5', 's5'])
     w = World(sim, env, ids, schedules=sched_defs)
